@@ -26,7 +26,9 @@ RULE = ('assign: systems of 1-6 molecules (1-8 residues of 1-3 atoms, sparse inc
         'the selected molecules differ in residue count or the sequence is per-residue for the whole selection. '
         'dssp-enum: all strings over {H,C} up to length 12 (quick) / 16 (thorough), enumerated completely; non-trivial = at least '
         'two helical runs. dssp-random: strings over 123HGIBETSC up to length 60; non-trivial = two helical runs separated by a '
-        'single residue.')
+        'single residue. dssp-system: 2-5 molecules, each fully / not / partly annotated with its own DSSP string, translated by one '
+        'AnnotateMartiniSecondaryStructures.run_system call (optionally twice); non-trivial = a molecule that ends in a helix is '
+        'followed by one that starts with a helix.')
 ASSUMPTIONS = [
     'the k-th residue of a molecule is the k-th in order of first appearance; generated node keys increase with insertion order so that this coincides with the lowest-key order the library uses',
     'residues of one molecule have distinct (chain, resid, resname, insertion code)',
@@ -119,6 +121,81 @@ def _strategy_dssp_random(tier):
     )
     seq = st.one_of(st.lists(piece, max_size=12).map(''.join), st.text(alphabet=alphabet, max_size=60))
     return st.fixed_dictionaries({'seq': seq, 'via_molecule': st.booleans(), 'atoms_per_res': st.integers(1, 3)})
+
+
+def _strategy_dssp_system(tier):
+    piece = st.one_of(
+        st.integers(1, 9).map(lambda n: 'H' * n),
+        st.text(alphabet='HGI123', min_size=1, max_size=6),
+        st.text(alphabet='BETSC', min_size=1, max_size=3),
+    )
+    seq = st.lists(piece, min_size=1, max_size=5).map(''.join)
+    mol = st.fixed_dictionaries({'seq': seq, 'annotated': st.sampled_from(['full', 'full', 'full', 'full', 'full', 'none', 'partial']),
+                                 'atoms_per_res': st.integers(1, 2), 'hole': st.integers(0, 50)})
+    return st.fixed_dictionaries({'mols': st.lists(mol, min_size=2, max_size=5), 'twice': st.booleans()})
+
+
+def _run_dssp_system(case):
+    """Several molecules, each with its own DSSP string: every molecule is translated on its own (a helix never continues
+    into the next molecule), molecules without any DSSP annotation are left alone, a partly annotated one is an error."""
+    system = System()
+    system.meta['header'] = []
+    layout = []
+    for mi, md in enumerate(case['mols']):
+        mol = Molecule()
+        key = 0
+        seq = md['seq']
+        hole = md['hole'] % len(seq)
+        keys = []
+        for ridx, c in enumerate(seq):
+            row = []
+            for a in range(md['atoms_per_res']):
+                attrs = dict(atomname='A%d' % a, resname='ALA', resid=ridx + 1, chain='ABCDE'[mi])
+                if md['annotated'] == 'full' or (md['annotated'] == 'partial' and ridx != hole):
+                    attrs['aasecstruct'] = c
+                mol.add_node(key, **attrs)
+                row.append(key)
+                key += 3
+            keys.append(row)
+        layout.append(keys)
+        system.molecules.append(mol)
+    partial = any(md['annotated'] == 'partial' and len(md['seq']) > 1 for md in case['mols'])
+    # a one-residue molecule whose only residue lacks the annotation is an un-annotated molecule
+    processor = AnnotateMartiniSecondaryStructures()
+    try:
+        processor.run_system(system)
+        if case['twice']:
+            processor.run_system(system)
+    except ValueError:
+        if not partial:
+            raise Violation('dssp-system-rejected', 'ValueError although every molecule is fully annotated or not at all: %r' % (
+                [(md['seq'], md['annotated']) for md in case['mols']],))
+        return Outcome(['partly-annotated-molecule'], False)
+    if partial:
+        raise Violation('dssp-system-partial-accepted', 'a molecule with DSSP classes on only some residues was accepted')
+    junction = False
+    previous_helix_end = False
+    for mi, (md, mol, keys) in enumerate(zip(case['mols'], system.molecules, layout)):
+        seq = md['seq']
+        full = md['annotated'] == 'full'
+        expected = ref_convert(seq) if full else None
+        for ridx, row in enumerate(keys):
+            for key in row:
+                got = mol.nodes[key].get('cgsecstruct')
+                want = expected[ridx] if full else None
+                if got != want:
+                    raise Violation('dssp-system', 'molecule %d (%r, %s) residue %d: cgsecstruct %r, expected %r; sequences of the system: %r' % (
+                        mi, seq, md['annotated'], ridx, got, want, [(m['seq'], m['annotated']) for m in case['mols']]))
+        if full:
+            if previous_helix_end and TABLE[seq[0]] == 'H':
+                junction = True
+            previous_helix_end = TABLE[seq[-1]] == 'H'
+    classes = []
+    if junction:
+        classes.append('helix-at-both-sides-of-a-molecule-boundary')
+    if any(md['annotated'] != 'full' for md in case['mols']):
+        classes.append('has-unannotated-molecule')
+    return Outcome(classes, junction)
 
 
 def _run_dssp_random(case):
@@ -385,4 +462,6 @@ PARTS = [
     Part('dssp-enum', _run_enum, enumerate=_enum_dssp),
     Part('dssp-random', _run_dssp_random, strategy=_strategy_dssp_random, examples={'quick': 4000, 'thorough': 100000},
          floors={'runs-separated-by-one': 0.05, 'has-long-helix': 0.1, 'via-molecule': 0.2}),
+    Part('dssp-system', _run_dssp_system, strategy=_strategy_dssp_system, examples={'quick': 1600, 'thorough': 40000},
+         floors={'helix-at-both-sides-of-a-molecule-boundary': 0.1}),
 ]
